@@ -11,7 +11,7 @@
    Obj k      = k-th instance made by the harness, of harness class A (k even) or B (k odd)
    Foreign k  = an object that is not an instance of the manager's backend class *)
 From Coq Require Import List Arith Bool NArith ZArith Uint63.
-From TLV Require Import Model.Backend Model.BackendDispatch Model.BackendAbort Corr.Common.
+From TLV Require Import Model.Backend Model.BackendDispatch Model.BackendAbort Model.BackendSym Corr.Common.
 Import ListNotations.
 
 Definition cfg_backend : cfg := {| known := fun n => Nat.leb n 2; cname := fun k => if Nat.even k then 1 else 2 |}.
@@ -352,77 +352,16 @@ Proof. vm_compute. repeat split. Qed.
 (* ---- programs of acts extracted from the SOURCE (ast) of set_backend / backend_context / current_backend by
    the harness (leading digit 4): they must obey the effect-point discipline that C17_micro_atomic's generic
    simulation needs (every act that touches the shared default is an effect point; at least one; one for
-   set / exit, two for enter) and, executed without interruption, do what the model's programs do on a
-   family of states *)
-Definition dec_act (d : nat) : act * bool :=
-  let tagged := 16 <=? d in
-  let k := if tagged then d - 16 else d in
-  (match k with
-   | 0 => ASave | 1 => ATls (Const (Obj 3)) | 2 => ATls FromReg | 3 => ADname FromReg
-   | 4 => AShared (Const (Obj 3)) | 5 => AShared FromReg | 6 => APush false | 7 => APush true
-   | 8 => APop | 10 => AEmit ODone | 11 => AEmit OReraised | _ => ADispatch end, tagged).
-
-(* wfpb / prog_ok: Model/BackendAbort.v - the boolean side condition of C17_micro_atomic_generic *)
-
-Fixpoint list_eqb {A} (eqb : A -> A -> bool) (a b : list A) : bool :=
-  match a, b with [], [] => true | x :: a', y :: b' => eqb x y && list_eqb eqb a' b' | _, _ => false end.
-Definition opt_inst_eqb (a b : option inst) : bool :=
-  match a, b with Some x, Some y => inst_eqb x y | None, None => true | _, _ => false end.
-Definition frame_eqb (a b : inst * bool) : bool := inst_eqb (fst a) (fst b) && Bool.eqb (snd a) (snd b).
-Definition priv_eqb (p q : priv) : bool :=
-  opt_inst_eqb (p_tls p) (p_tls q) && list_eqb frame_eqb (p_ctx p) (p_ctx q) &&
-  list_eqb obs_eqb (p_out p) (p_out q).
-
-Definition mk (tl : option inst) (cx : list (inst * bool)) : priv :=
-  {| p_tls := tl; p_ctx := cx; p_reg := Named 0; p_out := [] |}.
-
-(* the family of states: shared default x own selection x context stack below the frame in question *)
-Definition fam (top : list (inst * bool)) : list (inst * priv) :=
-  flat_map (fun sh => flat_map (fun tl => map (fun cx => (sh, mk tl (top ++ cx)))
-                                              [[]; [(Obj 4, false)]; [(Obj 4, true); (Obj 5, false)]])
-                               [None; Some (Obj 1)])
-           [Named 0; Obj 6].
-
-Definition trun (c : cfg) (x : inst * priv) (l : list act) : inst * priv :=
-  fold_left (fun x a => (act_shared (fst x) (snd x) a, act_priv c (fst x) (snd x) a)) l x.
-
-Definition same_block (o : op) (top : list (inst * bool)) (extracted : prog) : bool :=
-  forallb (fun x => let '(sh, p) := x in
-             let r1 := trun cfg_backend (sh, p) (map fst extracted) in
-             let r2 := trun cfg_backend (sh, p) (map fst (compile fixed_rules cfg_backend p o)) in
-             inst_eqb (fst r1) (fst r2) && priv_eqb (snd r1) (snd r2))
-          (fam top).
-
-Definition check_prog (o : op) (top : list (inst * bool)) (nlp : nat) (pr : prog) : bool :=
-  prog_ok pr && Nat.eqb (count_lp pr) nlp && same_block o top pr.
-
-Fixpoint dec_progs (n : nat) (l : list nat) : option (list prog) :=
-  match n with
-  | O => match l with [] => Some [] | _ => None end
-  | S n' => match l with
-            | len :: r => match dec_progs n' (skipn len r) with
-                          | Some ps => if length (firstn len r) =? len then Some (map dec_act (firstn len r) :: ps) else None
-                          | None => None end
-            | [] => None
-            end
-  end.
-
-(* eight programs: for local_threadsafe = false, true: set_backend(instance), the entry of a context, its
-   normal exit, its exit by exception *)
-Definition agree_src (l : list nat) : bool :=
-  match dec_progs 8 l with
-  | Some [s0; e0; x0; y0; s1; e1; x1; y1] =>
-      let b := SInst (Obj 3) in
-      check_prog (Set_ 1 b false) [] 1 s0 && check_prog (Enter 1 b false) [] 2 e0 &&
-      check_prog (Exit_ 1 false) [(Obj 2, false)] 1 x0 && check_prog (Exit_ 1 true) [(Obj 2, false)] 1 y0 &&
-      check_prog (Set_ 1 b true) [] 1 s1 && check_prog (Enter 1 b true) [] 2 e1 &&
-      check_prog (Exit_ 1 false) [(Obj 2, true)] 1 x1 && check_prog (Exit_ 1 true) [(Obj 2, true)] 1 y1
-  | _ => false
-  end.
+   set / exit, two for enter) and be equivalent AS BLOCKS to the model's programs.  The equivalence is decided by
+   SYMBOLIC execution (Model/BackendSym.v: src_ok); Proofs/BackendSym.v proves that a positive answer means equality of
+   shared default, thread-local slot, context stack and answers on EVERY initial state for EVERY backend instance
+   (C17_source_blocks_set / _enter / _exit), so nothing here is a test on a family of states any more. *)
+Definition agree_src (l : list nat) : bool := src_ok l.
 
 (* the programs as the repaired tree's source gives them; the same with the shared default written BEFORE the
    thread-local slot (a harmless reordering) are accepted; a read-back of the shared default (two shared accesses
-   in set_backend) and an exit that drops the flag are not *)
+   in set_backend), an exit that drops the flag, an except clause that swallows the body's exception (the exit by
+   exception answers like a normal one) are not *)
 Example src_example :
   let setg := [1; 3; 20; 10] in let setl := [17; 10] in
   let good := [4] ++ setg ++ [6; 16; 1; 3; 20; 6; 10] ++ [5; 8; 2; 3; 21; 10] ++ [5; 8; 2; 3; 21; 11]
@@ -431,7 +370,6 @@ Example src_example :
               ++ [2] ++ setl ++ [4; 16; 17; 7; 10] ++ [3; 8; 18; 10] ++ [3; 8; 18; 11] in
   let readback := [5; 3; 20; 25; 2; 10] ++ skipn 5 good in
   let dropflag := firstn 32 good ++ [5; 8; 2; 3; 21; 10] ++ [5; 8; 2; 3; 21; 11] in
-  (* an except clause that swallows the body's exception: the exit by exception answers like a normal one *)
   let swallow := firstn 18 good ++ [5; 8; 2; 3; 21; 10] ++ skipn 24 good in
   agree_src good = true /\ agree_src reordered = true /\ agree_src readback = false /\ agree_src dropflag = false /\
   agree_src swallow = false.
